@@ -582,7 +582,11 @@ def check_property(prop, tier, only_units=None, keep=False, jobs=None):
         else:
             log("scratch kept at " + scratch)
     results.sort(key=lambda r: r.name)
-    infra = [r for r in results if r.infra]
+    # best-effort units (thorough tier: "attempted, undecided if it does not finish") never break the check
+    undecided = [r for r in results if r.infra and r.unit.get("best_effort")]
+    infra = [r for r in results if r.infra and not r.unit.get("best_effort")]
+    for r in undecided:
+        print("UNDECIDED property=%s unit=%s (best-effort unit: %s)" % (prop, r.name, r.infra.replace("\n", " ")[:160]))
     violations, knowns = [], []
     replay_root = os.path.join(OUT, "replays")
     if not only_units:
@@ -674,7 +678,7 @@ def write_evidence(prop, tier, seed, results, violations, knowns, infra, wall):
             "backend": "cbmc 6.11.0 / SAT " + u.get("solver", "cadical"),
             "solver_wall_s": round(r.solver_wall, 2), "wall_s": round(r.wall, 2),
             "cfg": u.get("cfg", "prod"), "covers_reached": "%d/%d" % r.covers,
-            "status": "infra-error: " + r.infra[:200] if r.infra else "done",
+            "status": ("undecided (best-effort unit): " if u.get("best_effort") else "infra-error: ") + r.infra[:200] if r.infra else "done",
         }
         if u.get("kind", "proof") == "bounded":
             row["bound"] = u.get("bound", "")
